@@ -48,6 +48,7 @@ pub fn compile(source: &str) -> Result<String, (String, String)> {
 fn module_text(rust: &str) -> String {
     // drop the crate-level inner attribute and the mod-insertion marker; rename the entry point
     let mut out = String::from("#![allow(unused_imports, dead_code, unused_variables, unused_mut, unused_parens, unused_assignments, non_snake_case, unreachable_code)]\n");
+    let mut has_entry = false;
     for line in rust.lines() {
         let t = line.trim_start();
         if t.starts_with("#![") || t.starts_with("// __INCAN_INSERT_MODS__") {
@@ -55,12 +56,18 @@ fn module_text(rust: &str) -> String {
         }
         if t.starts_with("fn main()") {
             out.push_str(&line.replacen("fn main()", "pub fn incan_main()", 1));
+            has_entry = true;
         } else if t.starts_with("async fn main()") {
             out.push_str(&line.replacen("async fn main()", "pub async fn incan_main()", 1));
+            has_entry = true;
         } else {
             out.push_str(line);
         }
         out.push('\n');
+    }
+    if !has_entry {
+        // a library-like program (declarations only): it still has to compile; running it does nothing
+        out.push_str("pub fn incan_main() {}\n");
     }
     out
 }
